@@ -196,7 +196,7 @@ func TestC05(t *testing.T) {
 			}
 			body = append([]*Node{lead}, body...)
 		}
-		caps := captureNames(body)
+		caps := captureNames(body, globals...)
 		prog := &Program{Globals: globals}
 		nt := rapid.IntRange(0, 2).Draw(t, "ntransforms")
 		if rich && nt == 0 {
@@ -214,6 +214,9 @@ func TestC05(t *testing.T) {
 		}
 		if rich {
 			cmd.With = append(cmd.With, WithItem{Kind: 1, S: tnames[0]}, WithItem{Kind: 1, S: "c0"})
+			if rapid.Bool().Draw(t, "twice") {
+				cmd.With = append(cmd.With, WithItem{Kind: 1, S: tnames[rapid.IntRange(0, len(tnames)-1).Draw(t, "again")]})
+			}
 		}
 		prog.Commands = []Command{cmd}
 		text, _ := GenText(t, globals, body, true, 20)
